@@ -82,14 +82,14 @@ structure AttrInv (ts : List Token) (stack : NsStack) (st : AttrLoop) : Prop whe
 theorem addAttributes_inv {ts : List Token} (stack : NsStack) (node : Path) (abs : List AttributeBuilder) :
     ∀ (st st' : AttrLoop), (∀ ab ∈ abs, AbFacts ts ab) → AttrInv ts stack st →
       addAttributes stack node st abs = .ok st' →
-      AttrInv ts stack st' ∧ EnvApp st.env st'.env ∧
-        declsOf st'.rkids.reverse = declsOf st.rkids.reverse := by
+      AttrInv ts stack st' ∧ SdEnvApp st.env st'.env ∧
+        sdDeclsOf st'.rkids.reverse = sdDeclsOf st.rkids.reverse := by
   induction abs with
   | nil =>
     intro st st' _ h hr
     simp only [addAttributes, Step.ok.injEq] at hr
     subst hr
-    exact ⟨h, EnvApp.refl _, rfl⟩
+    exact ⟨h, SdEnvApp.refl _, rfl⟩
   | cons ab rest ih =>
     intro st st' habs h hr
     simp only [addAttributes] at hr
@@ -137,12 +137,12 @@ theorem addAttributes_inv {ts : List Token} (stack : NsStack) (node : Path) (abs
               · exact ⟨rfl, by simp [Tree.value, Value.phase]⟩
               · exact h.leaves k hk
 
-theorem declsOf_namespaceKids (decls : List (Nat × Nat)) : declsOf (namespaceKids decls).reverse = decls := by
+theorem declsOf_namespaceKids (decls : List (Nat × Nat)) : sdDeclsOf (namespaceKids decls).reverse = decls := by
   simp only [namespaceKids, List.reverse_reverse]
   induction decls with
   | nil => rfl
   | cons d ds ih =>
-    simp only [List.map_cons, declsOf, List.filterMap_cons, Tree.value] at ih ⊢
+    simp only [List.map_cons, sdDeclsOf, List.filterMap_cons, Tree.value] at ih ⊢
     rw [ih]
 
 theorem descR_leaves {ts : List Token} {g : SpanKey → Option Span} {env : Env} (stack : NsStack) (path : Path) :
@@ -200,7 +200,7 @@ theorem openElement_dinv {ts done done' : List Token} {b b' : Builder} (h : DInv
             obtain ⟨d, _, rfl⟩ := hk
             exact ⟨rfl, by simp [Tree.value, Value.phase]⟩
         obtain ⟨hinv, happ2, hdecl⟩ := addAttributes_inv _ _ _ _ st habs hinv0 hst
-        have happ : EnvApp b.env st.env := happ1.trans happ2
+        have happ : SdEnvApp b.env st.env := happ1.trans happ2
         have hnp := nextPath_eq b
         -- the span map afterwards
         have hget : ∀ k : SpanKey, k.path ≠ b.curPath ++ [b.cur.rkids.length] →
@@ -233,7 +233,7 @@ theorem openElement_dinv {ts done done' : List Token} {b b' : Builder} (h : DInv
               (b.spans.add ⟨b.curPath ++ [b.cur.rkids.length], .elementStart⟩ eb.span)
               (by rw [hinv.names]; exact hinv.nodup) n _ _ a2
             exact ⟨p', l', val', sp', a1, g1, g2, a3, a4⟩
-        · show (eb.namespaces :: b.nsStack).head? = some (declsOf st.rkids.reverse)
+        · show (eb.namespaces :: b.nsStack).head? = some (sdDeclsOf st.rkids.reverse)
           rw [hdecl, declsOf_namespaceKids]; rfl
         · exact stackDesc_mono happ (b.cur :: b.parents) _ hprot h.stack
         · intro s ks more hrk
